@@ -33,7 +33,7 @@ RULE = ('five case streams from one PRNG: (ddl) random class declarations, 1..6 
         'distinct = distinct declaration, op sequence or string.')
 EXPLANATION = ('Coq theorems over Model/Ddl.v (token-level renderer of CREATE TABLE / constraints / indexes / link tables for seven '
                'dialects, reference DDL reader, style functions, name-order rule, schema state machine): C14_skeleton_* by induction on '
-               'the column list, C14_fk_action, C14_index, C14_join_table_once, C14_style_roundtrip, C14_idempotent_*, C14_evolution_inv; '
+               'the column list, C14_fk_action, C14_index, C14_join_table_once, C14_join_one_sided, C14_enum_literal, C14_style_roundtrip, C14_idempotent_*, C14_evolution_inv; '
                'deviations of the code are carried as *_refuted witnesses and guarded *_partial theorems. Tie A: constant tables and '
                'templates re-extracted from the source by a fail-closed partial evaluator on every run (Gen/Ddl.v) and pinned to the model by '
                'characterisation lemmas. Tie B: exact token equality of every dialect\'s statements with the model, PRAGMA introspection '
@@ -552,6 +552,8 @@ def gen_join_case(rng):
     else:
         ca = rng.random() < 0.5
         ja, jb = j(b, True, ca, rng.choice(['related', 'related', 'multiple'])), j(a, True, rng.random() < 0.5)
+    if ja and jb and rng.random() < 0.12:
+        jb[0]['inter'] = 'lnk2'          # the two sides name different tables: two relations, each owns its own
     da = simple_decl(a, [intcol('x')], joins=ja)
     db = simple_decl(b, [intcol('y')], joins=jb)
     return {'k': 'join', 'a': da, 'b': db, 'order': rng.choice(['ab', 'ba'])}
@@ -587,7 +589,7 @@ def gen_evo_case(rng):
             live.remove(n)
             ops.append(['del', n])
         else:
-            c = gen_col(rng, [parent], used_py, used_db, style, simple_enum=True)
+            c = gen_col(rng, [parent], used_py, used_db, style)
             if c is None:
                 continue
             r = rng.random()
@@ -657,7 +659,7 @@ def corpus():
     out = []
     # witnesses of the open findings
     out.append({'k': 'ddl', 'decl': simple_decl('VcEnumBs', [col('e', ['enum', ['c\\d', 'z']])]), 'others': [],
-                'caps': base_caps, 'exec': True})                                   # enum_escape_string_rejected
+                'caps': base_caps, 'exec': True})                                   # fixed d6378ce: enum_escape_string_rejected
     out.append({'k': 'ddl', 'decl': simple_decl('VcEnumPlain', [col('e', ['enum', ['a', 'b']])]), 'others': [],
                 'caps': base_caps, 'exec': True})                                   # mysql_enum_forced_not_null
     out.append({'k': 'ddl', 'decl': simple_decl('VcFkOpts', [col('other', ['fk', 'VcOther', True, None], notNone=True,
@@ -667,9 +669,9 @@ def corpus():
                 'b': simple_decl('VcBb', [intcol('y')], joins=[{'kind': 'related', 'other': 'VcAa', 'inter': None,
                                                                   'joinColumn': None, 'otherColumn': None,
                                                                   'create': True, 'attr': 'toVcAa'}]),
-                'order': 'ab'})                                                      # one_sided_join_never_created
+                'order': 'ab'})                                                      # fixed 87efb18: one_sided_join_never_created
     out.append({'k': 'evo', 'decl': simple_decl('VcEvo', [intcol('a')]), 'others': [simple_decl('VcEvoPar', [intcol('p')])],
-                'ops': [['add', intcol('c', notNone=True)]], 'rows': 1, 'child': False})   # add_column_rejected_class_changed
+                'ops': [['add', intcol('c', notNone=True)]], 'rows': 1, 'child': False})   # fixed 2bd134f: add_column_rejected_class_changed
     out.append({'k': 'evo', 'decl': simple_decl('VcEvo', [intcol('a'), intcol('bB')],
                                                 indexes=[{'name': 'ix', 'cols': [['a', None]], 'unique': True}]),
                 'others': [simple_decl('VcEvoPar', [intcol('p')])],
@@ -1277,12 +1279,24 @@ def ccol(c, ctx):
                 copt(c['defaultSQL'], lambda s: ctoks(lex(s, 'sqlite')))))
 
 
+def spec_inter(decl, j, ctx):
+    if j['inter']:
+        return j['inter']
+    return '_'.join(sorted([spec_table(decl), spec_table(find_decl(ctx, j['other']))]))
+
+
+def spec_other_creates(o, ctx):
+    """intermediate tables of o's RelatedJoins that have createRelatedTable"""
+    return [spec_inter(o, j, ctx) for j in o.get('joins', []) if j['kind'] == 'related' and j['create']]
+
+
 def cjoin(j, ctx):
     o = find_decl(ctx, j['other'])
     return ('{| j_kind := %s; j_other_class := %s; j_other_table := %s; j_inter := %s; j_joincol := %s; '
-            'j_othercol := %s; j_create := %s |}' % (
+            'j_othercol := %s; j_create := %s; j_other_creates := %s |}' % (
                 'JRelated' if j['kind'] == 'related' else 'JMultiple', cstr(j['other']), cstr(spec_table(o)),
-                copt(j['inter'], cstr), copt(j['joinColumn'], cstr), copt(j['otherColumn'], cstr), cbool(j['create'])))
+                copt(j['inter'], cstr), copt(j['joinColumn'], cstr), copt(j['otherColumn'], cstr), cbool(j['create']),
+                clist(spec_other_creates(o, ctx), cstr)))
 
 
 def cdecl(d, ctx):
@@ -1389,9 +1403,6 @@ def coq_case(c, o):
 
 
 # ================================================================= oracle: the property judged on the implementation
-ESCAPERS = set('\\\0\b\n\r\t')
-
-
 def malformed_decl(decl):
     for c in decl['cols']:
         k = c['kind']
@@ -1408,11 +1419,6 @@ def has_enum(decl):
 
 def mysql_only_int_opts(decl):
     return any(c['kind'][0] == 'int' and (c['kind'][2] or 0) >= 1 and (c['kind'][3] or c['kind'][4]) for c in decl['cols'])
-
-
-def enum_escapes(decl):
-    return any(c['kind'][0] == 'enum' and any(v is not None and set(v) & ESCAPERS for v in c['kind'][1])
-               for c in decl['cols'])
 
 
 def expected_cols(decl):
@@ -1632,23 +1638,9 @@ def classify_one(c, o, f):
             if [x[:3] + [None] for x in f['expected']] == f['actual'] and any(x[3] for x in f['expected']):
                 return 'fk_action_not_rendered_sybase_mssql_maxdb'
             return None
-        if k == 'sqlite_create_failed' and enum_escapes(decl) and 'syntax error' in (f.get('msg') or ''):
-            return 'enum_escape_string_rejected_sqlite'
-        return None
-    if c['k'] == 'join':
-        a, b = c['a'], c['b']
-        # a many-to-many join declared only on the class whose name sorts last
-        for d, other in ((a, b), (b, a)):
-            if _related(d) and not [j for j in other['joins'] if j['kind'] == 'related'] and d['cls'] > other['cls']:
-                if k in ('link_table_count', 'link_table_missing', 'join_unusable'):
-                    return 'one_sided_join_never_created'
         return None
     if c['k'] == 'evo':
         op = c['ops'][f['step']]
-        if k == 'out_of_step' and f['op'] == 'add' and f['error'] == 'OperationalError' \
-                and f['class'][:-1] == f['table']:
-            # the engine refused the ALTER TABLE (whatever its reason); the class kept the column
-            return 'add_column_rejected_class_changed'
         if k == 'index_lost' and f['op'] == 'del':
             return 'del_column_drops_indexes_sqlite'
         if k == 'child_fk_repointed' and f['op'] == 'del' and f['target'] == [o['table'] + '_ORIGINAL']:
@@ -1657,8 +1649,7 @@ def classify_one(c, o, f):
     return None
 
 
-PRIORITY = ['enum_escape_string_rejected_sqlite', 'one_sided_join_never_created', 'add_column_rejected_class_changed',
-            'del_column_drops_indexes_sqlite', 'del_column_repoints_child_fk_sqlite',
+PRIORITY = ['del_column_drops_indexes_sqlite', 'del_column_repoints_child_fk_sqlite',
             'maxdb_fk_drops_not_null_unique', 'mysql_enum_forced_not_null',
             'fk_action_not_rendered_sybase_mssql_maxdb', 'id_not_primary_key_mssql_sybase']
 
